@@ -182,6 +182,8 @@ def check(run):
             opts, stream, dec = L.GOpts(untyped=False, nested=False, loopmut=True, max_stmts=6), 'loop-join', None
         elif c < 0.16:
             opts, stream, dec = L.GOpts(untyped=False, nested=False, loopelse=True, max_stmts=6), 'loop-else', None
+        elif c < 0.21:
+            opts, stream, dec = L.GOpts(shift=True), 'shift', None
         elif c < 0.45:
             opts, stream, dec = L.GOpts(untyped=False, nested=False), 'typed', None
         elif c < 0.65:
@@ -260,6 +262,9 @@ def check(run):
         fn_cases.append(X.fn_case(r['prog'], r['an'], len(fn_cases)))
         # case for the model
         try:
+            if max([len(v) for v in r['an'].types.values()] or [0]) > 64:
+                # (products of tuple tags: evaluating the model on sets of hundreds of tuple tags takes minutes in Coq)
+                raise X.Unsupported('type sets too large for the quick model evaluation')
             ex = X.Exporter(r['prog'], r['an'], r['log'])
             idx = len(meta)
             cases.append(ex.case(idx))
